@@ -174,3 +174,94 @@ Proof.
   - (* Any *)
     destruct Wa as [_ N]. eapply sound_any; eauto.
 Qed.
+
+(* ------------------------------------------------------------------------------------------ *)
+(** * The same for the code as it is: any quirk flags, a receiver that avoids the flagged cases *)
+
+Definition sound_for_avoiding (q : quirks) (a : spec) : Prop :=
+  forall b, wf a -> wf b -> keys_ok b = true -> sizes_ok b = true -> compat q a b = true ->
+  forall v, total v = true -> conforms b v -> accepts a v.
+
+Lemma avoids_frozen : forall q a, avoids q a = true -> frozen (mods_of a) = true -> q_frozen_recv q = false.
+Proof.
+  intros q a AV F. destruct a; simpl in AV; apply andb_true_iff in AV as [AV _];
+    cbn [mods_of] in F; rewrite F in AV; simpl in AV; rewrite orb_false_r in AV;
+    destruct (q_frozen_recv q); auto; discriminate.
+Qed.
+
+Theorem compat_sound_avoiding : forall q a, no_union a = true -> avoids q a = true -> sound_for_avoiding q a.
+Proof.
+  intros q.
+  induction a using spec_ind'; intros NU AV b Wa Wb KB SB CP v TV C;
+    rewrite compat_eq in CP; unfold compat1 in CP; cbn [mods_of] in CP;
+    apply andb_true_iff in CP as [FO CP];
+    (destruct (frozen m) eqn:Fa;
+     [ match goal with AV0 : avoids q ?aa = true |- _ =>
+         pose proof (avoids_frozen q aa AV0 Fa) as Q2 end;
+       destruct (frozen_ok_true _ _ _ Q2 Fa FO) as [Fb E];
+       eapply sound_frozen_receiver; eauto
+     | pose proof (conforms_unfreeze _ _ Wb TV C) as C';
+       pose proof (total_not_missing _ TV) as NM ]);
+    simpl in AV; apply andb_true_iff in AV as [_ AV].
+  - (* Bool *)
+    destruct b; try discriminate.
+    eapply sound_leaf with (b := SBool m0); eauto;
+      try (intros v1 B; inv B; reflexivity); try (intros _; eexists; reflexivity).
+  - (* Int *)
+    destruct b; try discriminate. bsplit.
+    eapply sound_leaf with (b := SInt lo0 hi0 m0); eauto.
+    + intros v1 B. symmetry. eapply validate_num_same; eauto.
+    + intros B. cbn [apply_body] in *. destruct (validate_num_ok _ _ _ B) as [x [N I]].
+      exists v. unfold validate_num. rewrite N. erewrite in_range_compat64; eauto.
+  - (* Float *)
+    destruct b; try discriminate. bsplit.
+    eapply sound_leaf with (b := SFloat lo0 hi0 m0); eauto.
+    + intros v1 B. symmetry. eapply validate_num_same; eauto.
+    + intros B. cbn [apply_body] in *. destruct (validate_num_ok _ _ _ B) as [x [N I]].
+      exists v. unfold validate_num. rewrite N. erewrite in_range_compat; eauto.
+  - (* Str *)
+    destruct b; try discriminate.
+    eapply sound_leaf with (b := SStr m0); eauto;
+      try (intros v1 B; inv B; reflexivity); try (intros _; eexists; reflexivity).
+  - (* Enum: only when both Enum flags are off *)
+    apply andb_true_iff in AV as [Q3 Q4].
+    apply negb_true_iff in Q3. apply negb_true_iff in Q4.
+    apply orb_true_iff in CP as [SC|CP].
+    + bsplit. rewrite Q3, orb_false_l in H0.
+      rewrite (conforms_frozen _ _ H C).
+      destruct (apply false (SEnum vs m) (dflt (mods_of b))) eqn:A; [|discriminate].
+      eexists; eauto.
+    + destruct b; try discriminate. bsplit. eapply sound_enum_enum; eauto.
+  - (* List *)
+    destruct b; try discriminate. bsplit.
+    simpl in NU, KB, SB. apply andb_true_iff in SB as [SB1 SB2].
+    assert (MN : negb (mn >? mn0) = true).
+    { destruct (q_list_min q); simpl in *; auto. lia. }
+    eapply sound_list; eauto.
+    intros x Tx Cx. apply (IHa NU ltac:(assumption) b); eauto using wf_list.
+  - (* Tuple *)
+    destruct b; try discriminate. apply andb_true_iff in CP as [NO CP].
+    simpl in NU, KB, SB. apply andb_true_iff in SB as [_ SB].
+    rewrite forallb_forall in NU, KB, SB, AV.
+    pose proof (wf_tuple _ _ _ _ Wa) as Wes. pose proof (wf_tuple _ _ _ _ Wb) as Woes.
+    rewrite Forall_forall in *.
+    eapply sound_tuple; eauto.
+    intros e He oe Hoe CPe x Tx Cx. apply (H e He (NU e He) (AV e He) oe); auto.
+  - (* schema-less Dict *)
+    destruct b; try discriminate. bsplit. eapply sound_dict_none; eauto.
+  - (* Dict with a schema *)
+    destruct b; try discriminate. apply andb_true_iff in CP as [NO CP].
+    destruct schema as [ofs|]; [|discriminate].
+    simpl in NU, KB, SB. apply andb_true_iff in KB as [KD KB]. rewrite forallb_forall in NU, KB, SB, AV.
+    pose proof (wf_dict _ _ Wa) as Wfs. pose proof (wf_dict _ _ Wb) as Wofs.
+    rewrite Forall_forall in *.
+    eapply sound_dict; eauto.
+    intros key sa sb Isa Isb Cab x Tx Cx.
+    apply (H _ Isa (NU _ Isa) (AV _ Isa) sb); auto;
+      first [apply (Wfs _ Isa) | apply (Wofs _ Isb) | apply (KB _ Isb) | apply (SB _ Isb)].
+  - (* Object *)
+    destruct b; try discriminate. bsplit. eapply sound_obj; eauto.
+  - simpl in NU. discriminate.
+  - (* Any *)
+    destruct Wa as [_ N]. eapply sound_any; eauto.
+Qed.
